@@ -59,6 +59,7 @@ static int process_data(xfrm_stream_t *stream, const void *in,
 {
 	xfrm_xz_t *xz = (xfrm_xz_t *)stream;
 	lzma_ret ret_xz;
+	bool finishing;
 	sqfs_u32 diff;
 
 	if (!xz->initialized) {
@@ -79,7 +80,10 @@ static int process_data(xfrm_stream_t *stream, const void *in,
 	if (flush_mode < 0 || flush_mode >= XFRM_STREAM_FLUSH_COUNT)
 		flush_mode = XFRM_STREAM_FLUSH_NONE;
 
-	while (in_size > 0 && out_size > 0) {
+	/* keep going without input until the compressor has emitted its tail */
+	finishing = xz->compress && flush_mode == XFRM_STREAM_FLUSH_FULL;
+
+	while ((in_size > 0 || finishing) && out_size > 0) {
 		xz->strm.next_in = in;
 		xz->strm.avail_in = in_size;
 
